@@ -11,6 +11,7 @@ from harness.framework import Suite
 from harness.swctext import Expect, cps, sci_value
 
 PID = "C15"
+READY = False
 LEAN_MODS = ["SwcVerif.Props.C15"]
 THEOREMS = [
     "C15.convert_faithful", "C15.rows_count", "C15.trailing_ignored", "C15.comment_skipped", "C15.color_skipped", "C15.leading_comment_skipped",
@@ -187,12 +188,16 @@ class Convert(Suite):
             if not idx:
                 continue
             i = rng.choice(idx)
-            kind = rng.choice(["three", "five", "literal", "badfloat"])
+            kind = rng.choice(["three", "five", "literal", "badfloat", "nobracket", "nobracket"])
             t2 = list(toks)
             if kind == "three":
                 del t2[i + 4]
             elif kind == "five":
                 t2.insert(i + 4, "7")
+            elif kind == "nobracket":
+                if i < 5 or t2[i - 1] != ")":
+                    continue                      # only a point that follows another point / marker (not the first after the label)
+                del t2[i]                         # the point lost its opening bracket; the document gains a stray ")" at the end
             elif kind == "literal":
                 t2[i + rng.randint(1, 4)] = rng.choice(["abc", "x1", "NaN"])
             else:
